@@ -141,8 +141,31 @@ def constants(ctx, report):
             report.add('C09.R5', '%s@%s' % (c.construct, attr), '%s.%s is %s, the protocol says %s' % (cname, attr, show(got), want))
     c = model.cls('LDAPExtendedRequestStartTLS')
     report.count('C09.R5')
-    if spec['starttls_oid'] not in ast.unparse(c.methods['compose'].node):
+
+    def with_constants(node):
+        # source text of a method with the byte / string class constants it names written out
+        txt = ast.unparse(node)
+        for k in [x for x in c.mro if hasattr(x, 'class_vars')]:
+            for name, v in k.class_vars.items():
+                if isinstance(v, ast.Constant) and isinstance(v.value, (bytes, str)):
+                    val = v.value.decode('ascii', 'replace') if isinstance(v.value, bytes) else v.value
+                    for ref in ('self.' + name, 'cls.' + name, c.name + '.' + name):
+                        txt = txt.replace(ref, repr(val))
+        return txt
+    if spec['starttls_oid'] not in with_constants(c.methods['compose'].node):
         report.add('C09.R5', c.construct + '@oid', 'StartTLS request name is not %s' % spec['starttls_oid'])
+    # ... and the parser has to look at it: every extended request has the same protocolOp, the request name tells them apart
+    report.count('C09.R5')
+    ok = False
+    for n in ast.walk(c.methods['_parse'].node):
+        if isinstance(n, ast.If) and any(isinstance(x, ast.Raise) for x in n.body):
+            t = with_constants(n.test)
+            if 'requestName' in t and spec['starttls_oid'] in t and ('!=' in t or 'not in' in t):
+                ok = True
+    if not ok:
+        report.add('C09.R5', c.methods['_parse'].construct + '@request-name',
+                   'the StartTLS request parser does not compare the requestName on the wire with %s: any other extended request (Who am I?, password modify, '
+                   'cancel) is returned as a StartTLS request' % spec['starttls_oid'])
     t = model.cls('TPKT')
     report.count('C09.R5')
     if "!= %d" % spec['tpkt_version'] not in ast.unparse(t.methods['_parse'].node):
